@@ -9,6 +9,7 @@
 //
 //	race <k> -> <during 0|1> <after 0|1> <active: id=name=value,…> <alert: name=value>
 //	quiet <k> -> <after> <active> <alert>           (the same question after expiring the racing silence)
+//	limitrace <k> -> <max> <stored afterwards> <creates accepted> <creates refused>
 //	mergerace <k> <n> -> <id:upd,state of the raced id as stored afterwards> <stored0 upd> <batch upd> <expire upd>
 //
 // mergerace: the store holds n active silences; a Merge of a full-state batch with a NEWER version of every one
@@ -26,6 +27,7 @@ import (
 	"strconv"
 	"strings"
 	"sync"
+	"sync/atomic"
 	"testing"
 	"time"
 
@@ -96,6 +98,89 @@ func b2i(b bool) int {
 	return 0
 }
 
+// mergeRaceOnce: one Merge (full state, every silence edited) racing one Expire that starts `delay` after it.
+func (w *world) mergeRaceOnce(k, n int, delay time.Duration, took *time.Duration) string {
+	ctx := context.Background()
+	// a fresh store per round: n active silences
+	st, err := silence.New(silence.Options{Retention: time.Hour, Metrics: prometheus.NewRegistry()})
+	if err != nil {
+		panic(err)
+	}
+	now := time.Now()
+	ids := make([]string, n)
+	for i := 0; i < n; i++ {
+		p := w.mkSil(now, now.Add(time.Hour), fmt.Sprintf("m%d", i))
+		if err := st.Set(ctx, p); err != nil {
+			panic(err)
+		}
+		ids[i] = p.Id
+	}
+	// the batch: the full state as another instance would send it, every silence edited (newer update time, new comment)
+	b, err := st.MarshalBinary()
+	if err != nil {
+		panic(err)
+	}
+	var buf bytes.Buffer
+	br := bytes.NewReader(b)
+	victim := ids[(k*7)%n]
+	var stored0, batchUpd int64
+	for br.Len() > 0 {
+		var m pb.MeshSilence
+		if err := protodelim.UnmarshalFrom(br, &m); err != nil {
+			panic(err)
+		}
+		if m.Silence.Id == victim {
+			stored0 = m.Silence.UpdatedAt.AsTime().UnixNano()
+		}
+		m.Silence.UpdatedAt = timestamppb.New(m.Silence.UpdatedAt.AsTime().Add(time.Microsecond))
+		m.Silence.Comment = "edited elsewhere"
+		if m.Silence.Id == victim {
+			batchUpd = m.Silence.UpdatedAt.AsTime().UnixNano()
+		}
+		if _, err := protodelim.MarshalTo(&buf, &m); err != nil {
+			panic(err)
+		}
+	}
+	var wg sync.WaitGroup
+	started := make(chan struct{})
+	wg.Add(2)
+	go func() {
+		defer wg.Done()
+		close(started)
+		t0 := time.Now()
+		if err := st.Merge(buf.Bytes()); err != nil {
+			panic(err)
+		}
+		*took = time.Since(t0)
+	}()
+	go func() {
+		defer wg.Done()
+		<-started
+		if delay > 0 {
+			time.Sleep(delay)
+		}
+		if err := st.Expire(ctx, victim); err != nil {
+			panic(err)
+		}
+	}()
+	wg.Wait()
+	sils, _, err := st.Query(ctx, silence.QIDs(victim))
+	if err != nil || len(sils) != 1 {
+		return "missing 0 0 0"
+	}
+	v := sils[0]
+	state := "active"
+	if !v.EndsAt.AsTime().After(time.Now()) {
+		state = "expired"
+	}
+	// the expiry's update time: Expire stamps the wall clock, later than both other versions
+	expUpd := v.UpdatedAt.AsTime().UnixNano()
+	if state != "expired" {
+		expUpd = time.Now().UnixNano()
+	}
+	return fmt.Sprintf("%d,%s %d %d %d", v.UpdatedAt.AsTime().UnixNano()-stored0, state, 0, batchUpd-stored0, expUpd-stored0)
+}
+
 func (w *world) exec(line string) string {
 	t := strings.Fields(line)
 	switch t[0] {
@@ -138,83 +223,54 @@ func (w *world) exec(line string) string {
 	case "mergerace":
 		k, _ := strconv.Atoi(t[1])
 		n, _ := strconv.Atoi(t[2])
+		// the Expire has to arrive while Merge is at work: sweep its start over the measured duration of a Merge
+		var took time.Duration
+		out := w.mergeRaceOnce(k, n, 0, &took)
+		for j := 1; j <= 16 && strings.Contains(out, ",expired "); j++ {
+			var t2 time.Duration
+			out = w.mergeRaceOnce(k+j, n, took*time.Duration(j)/16, &t2)
+		}
+		return out
+	case "limitrace":
+		// MaxSilences = m, m-1 stored, three concurrent creates: exactly one fits.  The limit callback sleeps, so a check
+		// that is not atomic with the insert would let all three pass it.
+		k, _ := strconv.Atoi(t[1])
+		m := 2 + k%3
 		ctx := context.Background()
-		// a fresh store per round: n active silences
-		st, err := silence.New(silence.Options{Retention: time.Hour, Metrics: prometheus.NewRegistry()})
+		opts := silence.Options{Retention: time.Hour, Metrics: prometheus.NewRegistry()}
+		opts.Limits.MaxSilences = func() int {
+			time.Sleep(2 * time.Millisecond)
+			return m
+		}
+		st, err := silence.New(opts)
 		if err != nil {
 			panic(err)
 		}
 		now := time.Now()
-		ids := make([]string, n)
-		for i := 0; i < n; i++ {
-			p := w.mkSil(now, now.Add(time.Hour), fmt.Sprintf("m%d", i))
-			if err := st.Set(ctx, p); err != nil {
-				panic(err)
-			}
-			ids[i] = p.Id
-		}
-		// the batch: the full state as another instance would send it, every silence edited (newer update time, new comment)
-		b, err := st.MarshalBinary()
-		if err != nil {
-			panic(err)
-		}
-		var buf bytes.Buffer
-		br := bytes.NewReader(b)
-		victim := ids[(k*7)%n]
-		var stored0, batchUpd int64
-		for br.Len() > 0 {
-			var m pb.MeshSilence
-			if err := protodelim.UnmarshalFrom(br, &m); err != nil {
-				panic(err)
-			}
-			if m.Silence.Id == victim {
-				stored0 = m.Silence.UpdatedAt.AsTime().UnixNano()
-			}
-			m.Silence.UpdatedAt = timestamppb.New(m.Silence.UpdatedAt.AsTime().Add(time.Microsecond))
-			m.Silence.Comment = "edited elsewhere"
-			if m.Silence.Id == victim {
-				batchUpd = m.Silence.UpdatedAt.AsTime().UnixNano()
-			}
-			if _, err := protodelim.MarshalTo(&buf, &m); err != nil {
+		for i := 0; i < m-1; i++ {
+			if err := st.Set(ctx, w.mkSil(now, now.Add(time.Hour), fmt.Sprintf("f%d", i))); err != nil {
 				panic(err)
 			}
 		}
 		var wg sync.WaitGroup
-		started := make(chan struct{})
-		wg.Add(2)
-		go func() {
-			defer wg.Done()
-			close(started)
-			if err := st.Merge(buf.Bytes()); err != nil {
-				panic(err)
-			}
-		}()
-		go func() {
-			defer wg.Done()
-			<-started
-			if d := time.Duration(k%4) * 40 * time.Microsecond; d > 0 {
-				time.Sleep(d)
-			}
-			if err := st.Expire(ctx, victim); err != nil {
-				panic(err)
-			}
-		}()
+		var okN, errN atomic.Int32
+		for i := 0; i < 3; i++ {
+			wg.Add(1)
+			go func() {
+				defer wg.Done()
+				if err := st.Set(ctx, w.mkSil(now, now.Add(time.Hour), fmt.Sprintf("c%d", i))); err != nil {
+					errN.Add(1)
+				} else {
+					okN.Add(1)
+				}
+			}()
+		}
 		wg.Wait()
-		sils, _, err := st.Query(ctx, silence.QIDs(victim))
-		if err != nil || len(sils) != 1 {
-			return "missing 0 0 0"
+		all, _, err := st.Query(ctx)
+		if err != nil {
+			panic(err)
 		}
-		v := sils[0]
-		state := "active"
-		if !v.EndsAt.AsTime().After(time.Now()) {
-			state = "expired"
-		}
-		// the expiry's update time: Expire stamps the wall clock, later than both other versions
-		expUpd := v.UpdatedAt.AsTime().UnixNano()
-		if state != "expired" {
-			expUpd = time.Now().UnixNano()
-		}
-		return fmt.Sprintf("%d,%s %d %d %d", v.UpdatedAt.AsTime().UnixNano()-stored0, state, 0, batchUpd-stored0, expUpd-stored0)
+		return fmt.Sprintf("%d %d %d %d", m, len(all), okN.Load(), errN.Load())
 	case "quiet":
 		if w.cur != "" {
 			if err := w.s.Expire(context.Background(), w.cur); err != nil {
@@ -267,6 +323,7 @@ func runCase(tr *hx.Trace, id int, r *rand.Rand, script []string) {
 		do(fmt.Sprintf("race %d", k))
 		do(fmt.Sprintf("quiet %d", k))
 	}
+	do(fmt.Sprintf("limitrace %d", id))
 	for k := 0; k < 3; k++ {
 		do(fmt.Sprintf("mergerace %d %d", k+id, []int{300, 1500}[r.IntN(2)]))
 	}
